@@ -328,4 +328,34 @@ func inProcessReplays(rep *lib.Report, seed int64, thorough bool) {
 			return err
 		})
 	}
+	// a proposal that passes and whose handler panics: the recovered failure reason is stored in the proposal and emitted
+	for i := 0; i < nTally; i++ {
+		cs := seed*1000 + 950 + int64(i)
+		c := lib.NewChain(cs, 3+r.Intn(3), nil)
+		u := lib.EthKey(cs, "c17-replay-proposer", 0)
+		c.Mint(u.Acc(), lib.FX(100_000))
+		tok, err := c.SetupModuleOwned("SACR", 7, []string{"eth"}, "")
+		lib.Must(err)
+		pair, found := c.App.Erc20Keeper.GetTokenPair(c.Ctx, tok.Base)
+		if !found {
+			panic("sacrificial pair not registered")
+		}
+		key := append(append([]byte{}, erc20types.KeyPrefixTokenPair...), pair.GetID()...)
+		c.Ctx.KVStore(c.App.GetKey(erc20types.StoreKey)).Set(key, []byte{0xff, 0xff, 0x01})
+		lib.Must(c.NextBlock())
+		gs := c.App.GovKeeper
+		prop, err := gs.Keeper.SubmitProposal(c.Ctx, []sdk.Msg{&erc20types.MsgToggleTokenConversion{Authority: lib.GovAuthority(), Token: tok.Base}}, "", "toggle", "s", u.Acc(), false)
+		lib.Must(err)
+		_, err = gs.AddDeposit(c.Ctx, prop.Id, u.Acc(), sdk.NewCoins(lib.FX(10_000)))
+		lib.Must(err)
+		for _, vk := range c.ValKeys {
+			lib.Must(gs.Keeper.AddVote(c.Ctx, prop.Id, vk.Acc(), govv1.NewNonSplitVoteOption(govv1.OptionYes), ""))
+		}
+		after := c.Time.Add(15 * 24 * time.Hour)
+		sc := replayScenario{Kind: "gov-endblocker-panicking-handler", Seed: cs, Detail: "a passed MsgToggleTokenConversion proposal whose handler panics on a corrupted pair record"}
+		replayN(rep, c, sc, reps, func(ctx sdk.Context) sdk.Context { return ctx.WithBlockTime(after) }, func(ctx sdk.Context) error {
+			_, err := c.App.EndBlocker(ctx)
+			return err
+		})
+	}
 }
